@@ -38,17 +38,30 @@ pub fn is_ended_by<T: EbmlSpecification<T> + EbmlTag<T> + Clone>(current_id: u64
     )
 }
 
+///
+/// Returns how many of the innermost open tags in `doc_path` are ended by `tag_id`.
+///
+/// Only "Unknown" sized tags can be ended by another element, and a tag can only be ended this way if every tag nested inside of it is also of unknown size.  If `tag_id` ends one of those tags, every tag nested inside of it ends as well.
+///
+pub fn count_ended_tags<T: EbmlSpecification<T> + EbmlTag<T> + Clone>(tag_id: u64, doc_path: &[(u64, EBMLSize)]) -> usize {
+    let first_candidate = doc_path.iter().rposition(|item| item.1.is_known()).map_or(0, |index| index + 1);
+    (first_candidate..doc_path.len())
+        .find(|&index| is_ended_by::<T>(doc_path[index].0, tag_id))
+        .map_or(0, |index| doc_path.len() - index)
+}
+
 #[inline(always)]
 pub fn validate_tag_path<T: EbmlSpecification<T> + EbmlTag<T> + Clone>(tag_id: u64, doc_path: impl Iterator<Item = (u64, EBMLSize, usize)>) -> bool {
+    let doc_path: Vec<(u64, EBMLSize)> = doc_path.map(|item| (item.0, item.1)).collect();
+
+    // Any unknown sized tags ended by this element are no longer part of its path
+    let open_count = doc_path.len() - count_ended_tags::<T>(tag_id, &doc_path);
+
     let path = <T>::get_path_by_id(tag_id);
     let mut path_marker = 0;
     let mut global_counter = 0;
-    for item in doc_path {
+    for item in &doc_path[..open_count] {
         let current_node_id = item.0;
-
-        if !item.1.is_known() && is_ended_by::<T>(current_node_id, tag_id) {
-            return true;
-        }
 
         if path_marker >= path.len() {
             return false;
